@@ -66,9 +66,11 @@ CLAIMED = {
         note=TRUST + 'Handler-level split of the penalty between fee collector and farm owners is covered by the position step obligations when built.'),
     'C10': dict(
         text='calculate_weight executed symbolically over the full u128 x u64 domain: amount <= weight <= 16*amount inside [1 day, 1 year], InvalidWeight outside, '
-             'monotone in amount and in duration (relational: two executions compared).',
+             'monotone in amount and in duration (relational: two executions compared). Step obligations on all 13 farm-manager operations: the total weight and the '
+             'acting user weight recorded for the next epoch move by exactly the same amount, nothing moves for closed positions / claims / farm operations, current-epoch '
+             'weights are untouched, the total covers the users, and a user without open positions has no weight.',
         ref='DESIGN.md §6 C10',
-        note=TRUST + 'The total-vs-sum invariant over histories is a separate (bounded-history) obligation.'),
+        note=TRUST + 'Pre-state: each user weight equals the weight of their single-piece open position (positions topped up in several pieces can differ by rounding dust; see DESIGN.md 10.3).'),
     'C11': dict(
         text='Step obligations on the public ManageFarm messages: creation under every fee configuration (fee amount symbolic incl. zero, fee in the reward denom '
              'or another) and attached-funds shape (exact, reward only, extra coin, overpaid fee), automatic closing of expired farms with refunds to their owners, '
